@@ -557,6 +557,33 @@ def run_links(ctx, n):
     ctx.run_hypothesis(link_cases(), check, n)
 
 
+def atheris_mesh_seeds(kind):
+    out = []
+    for n in (1, 2, 3, 5):
+        v = np.arange(3 * n, dtype="<f4").tobytes()
+        t = (np.arange(6, dtype="<u4") % n).tobytes()
+        out.append(struct.pack("<I", n) + v + t)
+    return out
+
+
+def atheris_mesh_deep(kind, data):
+    try:
+        mesh_spec.parse(data)
+        return True
+    except mesh_spec.MeshSpecError:
+        return len(data) >= 16
+
+
+def run_atheris(ctx, n):
+    from vlib import atheris_run
+    if ctx.tier == "quick":
+        atheris_run.campaign(ctx, ["mesh"], atheris_mesh_seeds,
+                             atheris_mesh_deep, runs=n, max_len=256)
+    else:
+        atheris_run.campaign(ctx, ["mesh"], atheris_mesh_seeds,
+                             atheris_mesh_deep, seconds=n, max_len=256)
+
+
 CHECKS = {"layout": check_layout, "reader": check_reader,
           "affine": check_affine, "convert": check_convert, "vtk": check_vtk,
           "links": check_links}
@@ -568,4 +595,6 @@ SUBS = [
     Sub("convert", run_convert, check_convert, quick=300, thorough=6000),
     Sub("vtk", run_vtk, check_vtk, quick=1500, thorough=40000),
     Sub("links", run_links, check_links, quick=400, thorough=8000),
+    Sub("atheris", run_atheris, check_reader, quick=40000, thorough=120,
+        serial=True),
 ]
